@@ -14,14 +14,19 @@ import (
 // C06/C12/C13 run in a child built with -race; a report naming a repository frame is a violation.
 
 type c18Case struct {
-	Kind string   `json:"kind"` // c06 | c12 | c13
-	C06  *c06Case `json:"c06,omitempty"`
-	C12  *c12Case `json:"c12,omitempty"`
-	C13  *c13Case `json:"c13,omitempty"`
+	Kind       string   `json:"kind"` // c06 | c12 | c13 | resend | join_send (c06 conversations while the join callback dispatches commands to the new key)
+	JoinHoldUs int      `json:"join_callback_hold_us,omitempty"`
+	Greet      int      `json:"commands_from_join_callback,omitempty"`
+	C06        *c06Case `json:"c06,omitempty"`
+	C12        *c12Case `json:"c12,omitempty"`
+	C13        *c13Case `json:"c13,omitempty"`
 }
 
 func genC18(t *rapid.T) c18Case {
-	switch rapid.SampledFrom([]string{"c06", "c12", "c13", "c13", "resend"}).Draw(t, "kind") {
+	switch rapid.SampledFrom([]string{"c06", "c12", "c13", "c13", "resend", "join_send"}).Draw(t, "kind") {
+	case "join_send":
+		c := genC06(t)
+		return c18Case{Kind: "join_send", C06: &c, Greet: rapid.IntRange(0, 2).Draw(t, "greet"), JoinHoldUs: rapid.SampledFrom([]int{0, 500, 4000}).Draw(t, "join_hold")}
 	case "resend":
 		// the caller keeps one ActiveMessage value and sends it again after each (early) answer
 		c := c12Case{Terminals: []identity{genIdentity(t, 0, "id0")}, Plain: []int{rapid.IntRange(0, 2).Draw(t, "plain")}}
@@ -58,13 +63,27 @@ func checkC18(c c18Case, _ *kit.Collector) kit.Result {
 	res := kit.Result{Labels: []string{"scenario_" + c.Kind}}
 	var sc Scenario
 	switch c.Kind {
-	case "c06":
-		sc = Scenario{Handlers: c.C06.Handlers, ReadHoldUs: c.C06.HoldUs}
+	case "c06", "join_send":
+		sc = Scenario{Handlers: c.C06.Handlers, ReadHoldUs: c.C06.HoldUs, OnJoinSend: c.Greet}
+		if c.Kind == "join_send" {
+			sc.JoinHoldUs = c.JoinHoldUs
+		}
 		for i, t := range c.C06.Terminals {
 			steps, _ := convSteps(t, true)
 			sc.Actors = append(sc.Actors, Actor{Name: fmt.Sprintf("t%d", i), Kind: "terminal", Steps: steps})
 		}
 		res.NT = len(c.C06.Terminals) >= 1
+		if c.Kind == "join_send" {
+			// independent dispatchers: one per terminal, started before the terminals dial, each keeps trying to send a
+			// command to its terminal's key until the key is online - the command reaches the new connection's writer
+			// while its reader is still inside the join
+			var ps []Step
+			for i, t := range c.C06.Terminals {
+				ps = append(ps, Step{Op: "send_when_online", Key: t.ID.key(), Cmd: 0x8104, TimeoutMs: 100, Async: true, CallID: 900 + i, DeadlineMs: 3000, PauseUs: 100})
+			}
+			ps = append(ps, Step{Op: "join_calls", DeadlineMs: 4000})
+			sc.Actors = append([]Actor{{Name: "dispatcher", Kind: "platform", Steps: ps}}, sc.Actors...)
+		}
 	case "c12":
 		sc = c12Scenario(*c.C12)
 		res.NT = true
